@@ -50,10 +50,19 @@ def check(tier):
             "enumeration + three 40-120 tuple databases x interpreter -j1..16 and compiled; per-run oracle: functional on every key, sound and maximal "
             "with respect to T_P of the final database (computed by the reference evaluator)")
     rep.assume("interleavings inside one thread count are not enumerated here")
+    # schedule dimension: generated code under the vsched scheduler with the OpenMP shim (all chunk assignments and access
+    # interleavings up to the preemption bound on small driver programs)
+    from .. import gomp_cases
+    gomp_cases.run_gomp(rep, tier, dl, "C10")
     return rep.finish()
 
 
 def replay(obj):
+    if obj.get("kind") == "vsched":
+        from .. import vs
+        import os
+        exe = os.path.join(VBUILD, "gomp", obj["extra"]["gomp"], "harness")
+        return vs.replay_schedule(exe, obj["scenario"], obj["schedule"], obj["bound"], obj.get("dpoints", 1), obj.get("horizon", 20000), obj.get("conflicts", ()))
     def judge(rel, got, exp, o):
         keys = o["tags"][1]
         rows = [l.split("\t") for l in got]
